@@ -513,3 +513,47 @@ pub fn quiet_panics() {
         std::panic::set_hook(Box::new(|_| {}));
     }
 }
+
+/// Accumulates, over the distinct failing inputs of a run, the live bytes each first execution
+/// left behind. One-time initialisations are paid during the warm-up; what keeps growing
+/// afterwards is memory that a failed decode never gives back.
+#[derive(Default, Debug)]
+pub struct LeakAcc {
+    pub cases: u64,
+    pub sum_after_warmup: i64,
+    pub positive_after_warmup: u64,
+    pub examples: Vec<String>,
+}
+
+impl LeakAcc {
+    pub const WARMUP: u64 = 150;
+    pub fn add(&mut self, first_exec_growth: isize, what: &str) {
+        self.cases += 1;
+        if self.cases <= Self::WARMUP {
+            return;
+        }
+        self.sum_after_warmup += first_exec_growth as i64;
+        if first_exec_growth > 0 {
+            self.positive_after_warmup += 1;
+            if self.examples.len() < 3 {
+                self.examples.push(format!("{} bytes: {}", first_exec_growth, truncate(what, 160)));
+            }
+        }
+    }
+    /// Some(message) when the run as a whole kept memory: more than 1 KiB net growth spread over
+    /// at least 8 inputs after the warm-up.
+    pub fn verdict(&self) -> Option<String> {
+        if self.sum_after_warmup > 1024 && self.positive_after_warmup >= 8 {
+            Some(format!(
+                "failed decodes of {} distinct inputs after a warm-up of {} left {} bytes allocated in total ({} of them left something behind), e.g. {:?}",
+                self.cases.saturating_sub(Self::WARMUP),
+                Self::WARMUP,
+                self.sum_after_warmup,
+                self.positive_after_warmup,
+                self.examples
+            ))
+        } else {
+            None
+        }
+    }
+}
